@@ -242,6 +242,7 @@ type Net struct {
 	Steps     int
 	Trace     []string
 	OnStep    func(n *Net, node int) // monitors
+	OnBefore  func(n *Net, node int) // called before a node processes an input
 	KeepTrace bool
 }
 
@@ -451,6 +452,12 @@ func (n *Net) StepInternal(i int) bool {
 	if !nd.Up {
 		return false
 	}
+	if nd.CS.VerifInternalLen() == 0 {
+		return false
+	}
+	if n.OnBefore != nil {
+		n.OnBefore(n, i)
+	}
 	msg, ok := nd.CS.VerifStepInternal()
 	if !ok {
 		return false
@@ -480,6 +487,9 @@ func (n *Net) Deliver(i, id int) bool {
 	}
 	e := n.Pool[id]
 	n.Deliv[i][id] = true
+	if n.OnBefore != nil {
+		n.OnBefore(n, i)
+	}
 	nd.CS.VerifStepPeer(e.Msg, fmt.Sprintf("peer%d", e.From))
 	n.trace("dlv %d<-%d #%d %s %d/%d %.8s", i, e.From, id, e.Kind, e.H, e.R, e.Block)
 	n.after(i)
@@ -494,6 +504,9 @@ func (n *Net) Fire(i, k int) bool {
 	}
 	ti := nd.Timeouts[k]
 	nd.Timeouts = append(nd.Timeouts[:k:k], nd.Timeouts[k+1:]...)
+	if n.OnBefore != nil {
+		n.OnBefore(n, i)
+	}
 	nd.CS.VerifStepTimeout(ti)
 	n.trace("tmo %d %d/%d/%v", i, ti.Height, ti.Round, ti.Step)
 	n.after(i)
